@@ -91,6 +91,25 @@ def run(run):
             run.ok("C13.T2", "the search span is localised before it is compared with CIRCLES_SPAN", where(prog.bodies[ecs[0]]))
         else:
             run.bad("C13.T2", "circle-lookup", where(prog.bodies[ecs[0]]), "endorse_circle_span: localize=%s statics=%s" % (loc, sorted(uses)))
+    # the lookup must not depend on the absolute position (shared rule with C06.P1)
+    if len(ecs) == 1:
+        POSITIONAL = re.compile(r"span::Span::(bounds|cell_bounds|top_left|localize_point|is_bounded|hit_cell|extract)$")
+        for q in [ecs[0]] + prog.closures_of(ecs[0]):
+            ex = Expr(prog, q)
+            for bid, t in prog.calls(q):
+                n = Program.callee_name(t)
+                if POSITIONAL.search(n) and t["args"] and not mentions(ex.operand(t["args"][0]), lambda z: z[0] == "call" and z[1].endswith("span::Span::localize")):
+                    run.bad("C13.T2", "circle-lookup-uses-absolute-position", where(t),
+                            "endorse_circle_span consults %s of the un-localised span: a catalogued drawing would be matched at some positions and not at others" % short(n))
+        # and every catalogue entry is tried: no filter/skip before the subset test
+        r = [strip(x) for x in Expr(prog, ecs[0]).returns()]
+        adaptors = set()
+        for x in r:
+            mentions(x, lambda z: z[0] == "call" and re.search(r"Iterator::(filter|skip|take|skip_while|take_while|step_by)$", z[1]) and adaptors.add(z[1]) and False)
+        if adaptors:
+            run.bad("C13.T2", "catalogue-entries-skipped", where(prog.bodies[ecs[0]]), "endorse_circle_span does not try every catalogue entry: %s" % sorted(short(a) for a in adaptors))
+        else:
+            run.ok("C13.T2", "every catalogue entry is tried (rev().find_map over CIRCLES_SPAN, no filter)", where(prog.bodies[ecs[0]]))
     cs = "svgbob::map::circle_map::CIRCLES_SPAN"
     init = [p for p in prog.bodies if p.startswith(cs + "::{closure#0}::{closure#0}")]
     okc = False
